@@ -151,3 +151,59 @@ def backward_slice_ip(cr, f, start_local, depth=2, stop=None):
                 out_calls.append((body.get("key"), c, False))
     visit(f, start_local, 0)
     return out_calls, out_casts
+
+
+def dominators(f):
+    """dom[b] = set of blocks that dominate b (iterative; bodies have a few hundred blocks at most); unreachable blocks get {b}"""
+    n = len(f["blocks"])
+    succ = [M.successors(b["term"]) for b in f["blocks"]]
+    pred = [[] for _ in range(n)]
+    for i, ss in enumerate(succ):
+        for y in ss:
+            if 0 <= y < n:
+                pred[y].append(i)
+    reach, st = {0}, [0]
+    while st:
+        x = st.pop()
+        for y in succ[x]:
+            if y not in reach and 0 <= y < n:
+                reach.add(y)
+                st.append(y)
+    full = set(reach)
+    dom = [set(full) if i in reach else {i} for i in range(n)]
+    dom[0] = {0}
+    changed = True
+    order = sorted(reach)
+    while changed:
+        changed = False
+        for b in order:
+            if b == 0:
+                continue
+            ps = [dom[p] for p in pred[b] if p in reach]
+            new = (set.intersection(*ps) if ps else set()) | {b}
+            if new != dom[b]:
+                dom[b] = new
+                changed = True
+    return dom
+
+
+def natural_loop(f, header, dom=None):
+    """the natural loop of `header`: header plus every block that reaches a back edge (t -> header, header dominates t) without passing
+    through the header.  Unlike a strongly-connected-component test this separates an inner loop from the loop around it."""
+    dom = dom or dominators(f)
+    n = len(f["blocks"])
+    succ = [M.successors(b["term"]) for b in f["blocks"]]
+    pred = [[] for _ in range(n)]
+    for i, ss in enumerate(succ):
+        for y in ss:
+            if 0 <= y < n:
+                pred[y].append(i)
+    tails = [t for t in pred[header] if header in dom[t]]
+    body, st = {header}, list(tails)
+    while st:
+        x = st.pop()
+        if x in body:
+            continue
+        body.add(x)
+        st.extend(pred[x])
+    return body
